@@ -290,6 +290,30 @@ def obligations(prog):
         else:
             obs.append(Obligation("R-CHK", oid, s["loc"], s["fn"].name, text, False,
                                   "result is %s: the failure indicator reaches neither a branch nor the return value; call: %s" % (s["how"], s["call"])))
+    # carriers: an integer local that takes over a failure flag (`ret &= !(overflow || ..)`) inherits its obligation — it must
+    # be read before it is overwritten and before a non-zero return on every path.  `ret = ..` for `ret &= ..` inside a loop
+    # keeps only the last iteration's verdict: the carrier of iteration k is overwritten, unread, in iteration k + 1.
+    seen_c = set()
+    ncar = 0
+    for s in ordered:
+        if not s["how"].startswith("flag:"):
+            continue
+        flag, fn = s["how"][5:], s["fn"]
+        for el in fn.elems():
+            if not el.top:
+                continue
+            for (v, op, rhs, via) in defs_in_elem(el.e):
+                if via not in ("assign", "decl") or rhs is None or v == flag or not _reads_var(rhs, flag):
+                    continue
+                vi = fn.vars.get(v)
+                if not vi or not vi.get("int_bits") or (fn.name, v, el.loc) in seen_c:
+                    continue
+                seen_c.add((fn.name, v, el.loc))
+                ncar += 1
+                m = must_use(fn, el.blk, el.idx, v)
+                obs.append(Obligation("R-CHK", "R-CHK:%s:carrier:%s#%d" % (fn.name, v, len([1 for k in seen_c if k[0] == fn.name and k[1] == v])), el.loc, fn.name,
+                                      "`%s` takes over the failure flag %s in %s: it must be read before it is overwritten or a non-zero return" % (v, flag, fn.name),
+                                      m is None, ("`%s`; read on every path" % show(el.e)[:60]) if m is None else "`%s`: %s at %s" % (show(el.e)[:60], m[0], m[1])))
     stale = sorted(set(exc) - used - {"_comment"})
     if stale:
         raise AnalysisBroken("R-CHK: exception table entries match no call site any more: %s" % ", ".join(stale))
